@@ -19,6 +19,15 @@ type ProbeSpec struct {
 	Timeout          *int   `json:"timeout,omitempty"`
 	SuccessThreshold *int   `json:"success_threshold,omitempty"`
 	FailureThreshold *int   `json:"failure_threshold,omitempty"`
+	HTTP             *HTTPSpec `json:"http,omitempty"` // an http_get probe instead of the exec one (never run: real sockets)
+}
+
+type HTTPSpec struct {
+	Host    string `json:"host,omitempty"`
+	Scheme  string `json:"scheme,omitempty"`
+	Path    string `json:"path,omitempty"`
+	Port    string `json:"port,omitempty"`
+	NumPort *int   `json:"num_port,omitempty"`
 }
 
 type ProcSpec struct {
@@ -96,6 +105,7 @@ type Scenario struct {
 	Prop    string                  `json:"prop"`
 	Seed    uint64                  `json:"seed"`
 	Arm     string                  `json:"arm,omitempty"`
+	Mode    string                  `json:"mode,omitempty"` // property-specific variant of the arm
 	Project *ProjectSpec            `json:"project"`
 	LogBuf  *LogBufSpec             `json:"logbuf,omitempty"` // C18: workload on a bare log buffer instead of a project
 	Updates []*ProjectSpec          `json:"updates,omitempty"` // successive configurations for update ops (index = Op.N)
@@ -131,7 +141,26 @@ func q(s string) string {
 }
 
 func renderProbe(b *strings.Builder, key string, p *ProbeSpec) {
-	fmt.Fprintf(b, "    %s:\n      exec:\n        command: %s\n", key, q("simprobe "+p.Token))
+	if p.HTTP != nil {
+		fmt.Fprintf(b, "    %s:\n      http_get:\n", key)
+		kv := func(k, v string) {
+			if v != "" {
+				fmt.Fprintf(b, "        %s: %s\n", k, q(v))
+			}
+		}
+		kv("host", p.HTTP.Host)
+		kv("scheme", p.HTTP.Scheme)
+		kv("path", p.HTTP.Path)
+		kv("port", p.HTTP.Port)
+		if p.HTTP.NumPort != nil {
+			fmt.Fprintf(b, "        num_port: %d\n", *p.HTTP.NumPort)
+		}
+		if p.HTTP.Host == "" && p.HTTP.Scheme == "" && p.HTTP.Path == "" && p.HTTP.Port == "" && p.HTTP.NumPort == nil {
+			fmt.Fprintf(b, "        path: \"/\"\n")
+		}
+	} else {
+		fmt.Fprintf(b, "    %s:\n      exec:\n        command: %s\n", key, q("simprobe "+p.Token))
+	}
 	opt := func(k string, v *int) {
 		if v != nil {
 			fmt.Fprintf(b, "      %s: %d\n", k, *v)
